@@ -29,10 +29,12 @@ man = {
               'baseline_off_cmd': 'cd /repo && cargo test --workspace --no-fail-fast --offline',
               'source_commits': [], 'add_only': True},
     'engines': [{'name': 'verus-contracts', 'path': '/verif/tools', 'serves_properties': sorted(props.PROPS),
-                 'kind_free_text': 'extract (tools/extract.py) + splice contracts (contracts/*.ctr, spec/*.vrs) + Verus 0.2026.09.13; attribution of failed obligations to properties by clause tags'}],
+                 'kind_free_text': 'extract (tools/extract.py) + splice contracts (contracts/*.ctr, spec/*.vrs) + Verus 0.2026.09.13; attribution of failed obligations to properties by clause tags'},
+                {'name': 'native-bounded-oracle', 'path': '/verif/native', 'serves_properties': ['C01', 'C02', 'C03', 'C04', 'C05', 'C06', 'C07', 'C08', 'C09', 'C10', 'C11', 'C14', 'C15', 'C17'],
+                 'kind_free_text': 'NOT the deciding technique: plain-Rust transcription of the ISO model (native/src/iso.rs) evaluated through the public API on a deterministic corpus; used (1) as the labelled bounded stand-in when the deductive check of a property is undecided in the current tree, (2) to attach a concrete failing input to a failed obligation, (3) to arbitrate which property a failed multi-property clause belongs to, (4) as extra exploration in the thorough tier; native/c17_harness.rs is the bounded stand-in for the str/SVG clauses of C17'}],
     'checks': checks,
     'not_applicable': na,
-    'notes': 'exit 2 from a check means UNDECIDED (tool limit), never a violation. See DESIGN.md.',
+    'notes': 'exit 2 from a check means UNDECIDED (tool limit with no bounded stand-in available), never a violation. A line BOUNDED property=... with exit 0 means: the deductive check could not decide part of the cone in this tree and the bounded native oracle found no failing case (evidence level exploration for that run). See DESIGN.md.',
 }
 json.dump(man, open(os.path.join(VERIF, 'MANIFEST.json'), 'w'), indent=1)
 print('claimed', [c['property_id'] for c in checks], 'n/a', len(na))
